@@ -27,7 +27,7 @@ fn gen(r: &mut Rng, cfg: &RunCfg) -> Case {
         let max = if cfg.miri { 12 } else { 40 };
         if c.sub == "frag_usize" {
             c.frags = frag::usize_frags(r, max);
-            let big: &[usize] = &[usize::MAX, usize::MAX - 1, 0, 1, 1 << 53];
+            let big: &[usize] = &[usize::MAX, usize::MAX - 1, 0, 1, crate::rng::P53];
             c.lws = (0..r.below(4)).map(|_| (if r.chance(1, 3) { *r.pick(big) } else { r.below(40) }) as f64).collect();
         } else {
             c.frags = frag::hostile_frags(r, max, true);
@@ -196,13 +196,13 @@ fn check_text(case: &Case, obs: &mut Obs) -> Verdict {
         obs.bump("width_zero");
     }
     if let Algo::Optimal(p) = o.algo {
-        if [p.nline, p.overflow, p.frac, p.short, p.hyphen].iter().any(|v| *v >= (1 << 53)) {
+        if [p.nline, p.overflow, p.frac, p.short, p.hyphen].iter().any(|v| *v >= (crate::rng::P53)) {
             obs.bump("huge_penalties");
         }
     }
     Verdict::held(
         !text.is_empty(),
-        h(&[0, o.shape(), dirty as u64, bucket(lines.len()), bucket(o.width.min(100)), (o.width > (1 << 52)) as u64, bucket(cols), !text.is_ascii() as u64]),
+        h(&[0, o.shape(), dirty as u64, bucket(lines.len()), bucket(o.width.min(100)), (o.width > crate::rng::P52) as u64, bucket(cols), !text.is_ascii() as u64]),
     )
 }
 
